@@ -6,7 +6,7 @@ CONSTANTS
   CDurs <- ZeroDur
   EDurs <- ZeroDur
   Rets <- RetsTwoSmall
-  Advs <- AdvsExact
+  Advs <- AdvsTwo
   Decs <- DecsSleep
   BFaults <- BFaultsNone
   Ras <- RasNone
